@@ -97,6 +97,10 @@ def run(rep, tier):
         rep.call(c09.state_fields, rep, prog, "C11.stateless")
         from ..engines import validators
         rep.call(validators.crop_passthrough, rep, prog, "C11.crop-passthrough")
+        # rows selected for a cropped source: overrides of the stepped row iterator in the cropped
+        # views must hand out the rows the default does (start offset, row limit)
+        from ..engines import index_rules as _ir
+        rep.call(_ir.cropped_row_slices, rep, prog, "C11.cropped-rows")
         # the row / column indices of the copied pixel are computed without wrapping
         # (not on the 32-bit configuration: there `usize` products such as row * width are bounded
         # by the slice-length invariant of the containers, which the witness search does not
